@@ -339,7 +339,7 @@ fn psbt_ops(p: &Psbt, descs: &[glue::Desc], input: &str) -> Result<(), Failure> 
 impl Check for C11 {
     fn id(&self) -> &'static str { "C11" }
     fn rule(&self) -> String {
-        "six entry classes, each run under catch_unwind with the panic location recorded and a 20 s per-call limit: `text` (valid strings of every kind -- miniscript, descriptor with every key form, policy, public/secret key, wallet policy -- with 0-3 grammar-aware mutations, or deep (390-420) / wide (2000-12000 children) nesting, long digit runs, non-ASCII) -> every FromStr / from_str_* entry (Miniscript x 4 contexts x {SANE, CONSENSUS, MAX} x 3 key types, Descriptor x 3 key types, parse_descriptor, Concrete, Semantic, DescriptorPublicKey, DescriptorSecretKey, WalletPolicy, expression::Tree) and on success display / lift / sizes / derive / into_single_descriptors / address / plan / compare / hash; `script` (token-mutated encodings and random bytes) -> decode x 4 contexts x 3 parameter sets, then encode / lift / satisfy with empty and with all-answering satisfiers; `interp` (library satisfactions with mutated spk / scriptSig / witness, random triples) -> Interpreter::from_txdata, iter_assume_sigs, iter on a real transaction, inferred_descriptor; `psbt` (consistent multi-input PSBTs with corrupted fields: missing / short / mismatching utxos, wrong scripts, 73-byte and non-standard-sighash signatures, junk taproot data) -> every finalize variant, extract, sighash_msg, update_input/output_with_descriptor (also with out-of-range indices); `plan` (descriptor x Assets with fingerprints colliding with the descriptor's keys and empty / short / long paths) -> into_plan(_mall), Plan::satisfy, update_psbt_input; `compile` (policy text) -> every compile entry. Oracle: no panic, no call over 20 s. Non-trivial = inputs accepted by the first stage (only then is the deep code reached); distinct by input.".into()
+        "six entry classes, each run under catch_unwind with the panic location recorded and a 20 s per-call limit: `text` (valid strings of every kind -- miniscript, descriptor with every key form, policy, public/secret key, wallet policy -- with 0-3 grammar-aware mutations, or deep (390-420) / wide (2000-12000 children) nesting, wrapper runs of 450-100000 letters (which must be refused in every context and parameter set), or-chains of 100-170 leaves with halving odds, long digit runs, non-ASCII) -> every FromStr / from_str_* entry (Miniscript x 4 contexts x {SANE, CONSENSUS, MAX} x 3 key types, Descriptor x 3 key types, parse_descriptor, Concrete, Semantic, DescriptorPublicKey, DescriptorSecretKey, WalletPolicy, expression::Tree) and on success display / lift / sizes / derive / into_single_descriptors / address / plan / compare / hash; `script` (token-mutated encodings and random bytes) -> decode x 4 contexts x 3 parameter sets, then encode / lift / satisfy with empty and with all-answering satisfiers; `interp` (library satisfactions with mutated spk / scriptSig / witness, random triples) -> Interpreter::from_txdata, iter_assume_sigs, iter on a real transaction, inferred_descriptor; `psbt` (consistent multi-input PSBTs with corrupted fields: missing / short / mismatching utxos, wrong scripts, 73-byte and non-standard-sighash signatures, junk taproot data) -> every finalize variant, extract, sighash_msg, update_input/output_with_descriptor (also with out-of-range indices); `plan` (descriptor x Assets with fingerprints colliding with the descriptor's keys and empty / short / long paths) -> into_plan(_mall), Plan::satisfy, update_psbt_input; `compile` (policy text) -> every compile entry. Oracle: no panic, no call over 20 s. Non-trivial = inputs accepted by the first stage (only then is the deep code reached); distinct by input.".into()
     }
     fn assumptions(&self) -> Vec<String> {
         vec![
@@ -486,7 +486,51 @@ impl Check for C11 {
             }
             "big" => {
                 // deep and wide inputs (few cases, each large)
-                let s = match src.below(8) {
+                let s = match src.below(11) {
+                    8 | 9 => {
+                        // very long wrapper runs: depth limits must hold for every wrapper
+                        // (no parentheses to count), in every context and parameter set
+                        let d = *src.pick(&[450usize, 1_000, 5_000, 20_000, 100_000]);
+                        let w = *src.pick(&["l", "u", "n", "t", "a", "s", "c", "d", "v", "j", "lu", "tl", "ns"]);
+                        let s = format!("{}:pk(A)", w.repeat(d / w.len()));
+                        macro_rules! must_reject {
+                            ($c:ty, $name:expr) => {{
+                                for (pn, p) in [("MAX", miniscript::ValidationParams::MAX), ("CONSENSUS", <$c as miniscript::ScriptContext>::CONSENSUS)] {
+                                    let r = timed(&format!("Miniscript::<String,{}>::from_str_with_validation_params({})", $name, pn), &s, || Miniscript::<String, $c>::from_str_with_validation_params(&s, &p).is_ok())?;
+                                    if r {
+return crate::runner::fail(&format!("oversized-accepted/{}", $name), format!("a run of {} `{}` wrappers is accepted by the {} parser with {} parameters", d / w.len(), w, $name, pn));
+                                    }
+                                }
+                            }};
+                        }
+                        must_reject!(miniscript::Tap, "Tap");
+                        must_reject!(miniscript::Segwitv0, "Segwitv0");
+                        must_reject!(miniscript::Legacy, "Legacy");
+                        s
+                    }
+                    10 => {
+                        // a chain of nested ors with halving odds: the Huffman tree of the leaves
+                        // is a chain too (deeper than a taproot tree may be from ~130 leaves on)
+                        let n = src.range(100, 170);
+                        let mut s = format!("pk(K{})", n);
+                        for i in (0..n).rev() {
+                            s = format!("or(1@pk(K{}),1@{})", i, s);
+                        }
+                        rep.desc = clip(&s);
+                        // only the taproot entry points that compile leaf by leaf: the generic
+                        // compiler is (knowingly) exponential in the depth of such chains
+                        if let Ok(ps) = Concrete::<String>::from_str(&s) {
+                            rep.class("policy-accepted");
+                            timed("compile_tr on an or-chain", &s, || {
+                                let _ = ps.compile_tr(Some("UNSPENDABLE".to_string()));
+                                let _ = ps.compile_tr(None);
+                                let _ = ps.compile_tr_private_experimental(Some("UNSPENDABLE".to_string()));
+                                let _ = ps.compile_tr_private_experimental(None);
+                            })?;
+                        }
+                        rep.nontrivial_by(&s);
+                        return Ok(());
+                    }
                     0 => {
                         let d = src.range(390, 420);
                         format!("{}pk(A){}", "and_v(v:".repeat(0) + &"n:".repeat(0) + &"or_i(0,".repeat(d), ")".repeat(d))
